@@ -63,7 +63,8 @@ static double remaining_of(long pid)
   auto it = cur_exec.find(pid);
   if (it == cur_exec.end() || dead.count(pid))
     return -1;
-  return it->second->get_remaining();
+  sg4::ExecPtr x = it->second; // own reference: the owner may finish its wait() and drop the Exec while our get_remaining() simcall is pending
+  return x->get_remaining();
 }
 
 static void body(int k)
